@@ -76,6 +76,38 @@ def run(ctx):
             R.ob('C08.yield', ('<BaseChannel as Stream>::poll_next', 'duplicate ids are skipped'), ok,
                  'the yield happens on the Ok edge of registration only; a request reusing an in-flight id is ignored', [pn.loc(s) for _, s in rets] or [pn.loc(t)])
 
+    # (1c) every Request message read is registered: no path from the Request arm skips the registration
+    tp = [(bb, t) for bb, t in pn.calls() if callee_is(t, 'Stream::poll_next') and 'Fuse<' in (t.get('self_ty') or '')]
+    regs = [bb for bb, t in pn.calls() if F.callee_fn(t) is reg]
+    ok = len(tp) == 1 and len(regs) >= 1
+    arm = None
+    if ok:
+        item = ('call', pn.id, tp[0][0])
+        for i, b in enumerate(pn.blocks):
+            if b['cleanup'] or b['term']['k'] != 'switch':
+                continue
+            d = b['term']['discr']
+            if d['k'] not in ('copy', 'move'):
+                continue
+            tt = P.operand(pn, d, at=i)
+            if tt[0] != 'discr':
+                continue
+            ety = None
+            for st in b['stmts']:
+                if st['rv']['k'] == 'discr':
+                    ety = st['rv'].get('ty')
+            if not ety or 'ClientMessage' not in ety:
+                continue
+            rs = P.root(tt[1])
+            if rs and all(P.unbound(r) == item for r, _ in rs):
+                from .common import variant_values
+                vals = variant_values(F, ety, ['Request'])
+                if vals:
+                    arm = dict((v, x) for v, x in b['term']['targets']).get(vals[0], b['term']['otherwise'])
+        ok = arm is not None and cfg.all_paths_pass(pn, arm, set(cfg.exits(pn)) | {tp[0][0]}, set(regs))
+    R.ob('C08.yield', ('<BaseChannel as Stream>::poll_next', 'every request read is registered'), ok,
+         'every path from the Request arm of the message just read goes through the registration (no request is silently discarded before the id lookup)', [pn.loc(pn.d)])
+
     # (3) typestate
     ex = S.execute
     by_value = not ex.local_ty(1).startswith('&')
@@ -120,3 +152,5 @@ def run(ctx):
     ctors = [(g, s) for g, i, j, s in F.all_aggregates('Response') if path_matches(s['rv']['adt'], 'Response') and s['rv']['adt'].count('::') == 0]
     okc = all(g.id.startswith(ex.id) or 'requests_per_channel' in g.id for g, s in ctors) and len(ctors) >= 2
     R.ob('C08.writers', ('Response', 'constructors'), okc, 'responses are constructed only by execute and by the request limiter', [g.loc(s) for g, s in ctors])
+    from .server_common import guard_always_disarmed
+    guard_always_disarmed(ctx, 'C08.once', S)
